@@ -41,13 +41,19 @@ RULE = ('case = (XSD version, base content model, candidate restriction). Bases:
         'zeroed occurrences of every particle, dropped / added / wrapped / swapped particles, chosen or dropped choice '
         'branches, changed compositor, wildcard→element and element→wildcard, renamed element, changed wildcard '
         'namespace, emptied group). non-trivial = the candidate differs from the base and both types were built '
-        'without structural errors; distinct by canonical JSON')
+        'without structural errors; distinct by canonical JSON. Second part: facet pairs (min/max Inclusive/Exclusive on '
+        'xs:integer over {-1,0,1,2,5}, length/minLength/maxLength on xs:string over {0..3}; base × derived, all kinds '
+        'crossed) judged on integers -4..8 / strings of length 0..5, and attribute pairs (use none/optional/required/'
+        'prohibited × fixed × type × attribute wildcard none/##any/##other/##local/urn:o; base × derived) judged on 8 '
+        'attribute sets; has_occurs_restriction on every pair of ranges over {0..3,∞}')
 TRUSTED = ['alphabet of representative child names (one per class of names the leaves of the two models can tell '
            'apart: every declared element name of either model, and for wildcards an undeclared target-namespace '
            'name, a name of each foreign namespace and an unqualified name); inclusion is proved for words over it',
            'children are simple-typed (xs:string) global elements: their own validity is C02; element-level clauses '
            '(type derivation, fixed, nillable, block) are ported as opaque inputs and exercised by a small family',
-           'independent python reference matcher (harness/lib_cm.py) cross-checks the proved oracle on bounded words']
+           'independent python reference matcher (harness/lib_cm.py) cross-checks the proved oracle on bounded words',
+           'facet and attribute pairs are judged by direct evaluation on a finite value/attribute catalogue (no Lean '
+           'model of attributes.py:508-605 / facets.py; the wildcard part of attribute restriction is C16)']
 ASSUMPTIONS = ['named model groups (xs:group ref) and xs:redefine are not generated: the `ref`-dependent branches of '
                'the rules are ported but only exercised with ref=None',
                'notNamespace/notQName wildcards are not generated here (their restriction rule is C16)']
@@ -257,11 +263,11 @@ def families(ctx: Ctx):
     rng = ctx.rng
     enum = enumerated_bases()
     for v11 in (False, True):
-        n = ctx.pick(60, 1200)
+        n = ctx.pick(60, 350)
         step = max(1, len(enum) // n)
-        yield 'enum2', v11, enum[::step][:n], ctx.pick(30, 60)
-        rnd = [c14.random_base(rng, v11) for _ in range(ctx.pick(70, 1200))]
-        yield 'random', v11, rnd, ctx.pick(30, 60)
+        yield 'enum2', v11, enum[::step][:n], ctx.pick(30, 40)
+        rnd = [c14.random_base(rng, v11) for _ in range(ctx.pick(70, 350))]
+        yield 'random', v11, rnd, ctx.pick(30, 40)
 
 
 def occurs_table(ctx: Ctx, drv: Optional[Driver]) -> None:
@@ -310,10 +316,151 @@ def strict_sample(ctx: Ctx) -> None:
                              n_err, strict_ok)
 
 
+
+# ---------------------------------------------------------------------------------------------
+# second part: facet pairs and attribute-use pairs (real verdict vs a direct subset test on a catalogue)
+
+KNOWN_ATTR = 'C14-F1'
+P2_HEAD = (f'<xs:schema xmlns:xs="{cm.XSD}" targetNamespace="urn:t" xmlns:t="urn:t" elementFormDefault="qualified">')
+
+
+def facet_schema(prim: str, fb: str, vb: int, fd: str, vd: int) -> str:
+    return (P2_HEAD + f'<xs:simpleType name="B"><xs:restriction base="xs:{prim}"><xs:{fb} value="{vb}"/></xs:restriction>'
+            f'</xs:simpleType><xs:simpleType name="D"><xs:restriction base="t:B"><xs:{fd} value="{vd}"/></xs:restriction>'
+            '</xs:simpleType><xs:element name="eb" type="t:B"/><xs:element name="ed" type="t:D"/></xs:schema>')
+
+
+def attr_schema(b: tuple, d: tuple) -> str:
+    def attr(use, fixed, typ, ns):
+        a = '' if use is None else (f'<xs:attribute name="a" type="xs:{typ}" use="{use}"'
+                                    + (f' fixed="{fixed}"' if fixed is not None else '') + '/>')
+        return a + ('' if ns is None else f'<xs:anyAttribute namespace="{ns}" processContents="lax"/>')
+    return (P2_HEAD + f'<xs:complexType name="B">{attr(*b)}</xs:complexType><xs:complexType name="D"><xs:complexContent>'
+            f'<xs:restriction base="t:B">{attr(*d)}</xs:restriction></xs:complexContent></xs:complexType>'
+            '<xs:element name="eb" type="t:B"/><xs:element name="ed" type="t:D"/></xs:schema>')
+
+
+def attr_known_match(case: dict, detail: dict) -> Optional[str]:
+    """C14-F1 (attributes.py:546-549): the base declares attribute `a` with use="prohibited" and has no
+    wildcard admitting it, the derived type declares `a` again with another use, and the offending instance
+    carries `a`."""
+    b, d = case['base'], case['derived']
+    if b[0] == 'prohibited' and d[0] in ('optional', 'required') and b[3] in (None, '##other', 'urn:o') \
+            and 'a' in detail['attributes']:
+        return KNOWN_ATTR
+    return None
+
+
+def second_part(ctx: Ctx) -> None:
+    import itertools
+    import xmlschema
+    rng = ctx.rng
+    classes = (('1.0', xmlschema.XMLSchema10), ('1.1', xmlschema.XMLSchema11))
+
+    def judge(schema, kind, case, instances):
+        ctx.case(case, True, tag=kind)
+        accepted = not schema.all_errors
+        ctx.count(f'{kind}:accepted={accepted}')
+        if not accepted:
+            return
+        ed, eb = schema.elements['ed'], schema.elements['eb']
+        for text, attrs in instances:
+            e1 = c14.ET.Element('{urn:t}ed', attrs)
+            e2 = c14.ET.Element('{urn:t}eb', attrs)
+            e1.text = e2.text = text
+            if ed.is_valid(e1) and not eb.is_valid(e2):
+                detail = {'text': text, 'attributes': attrs, 'valid_for_derived': True, 'valid_for_base': False}
+                fid = attr_known_match(case, detail) if kind == 'attribute-pairs' else None
+                if fid:
+                    ctx.known_hit(fid)
+                    ctx.count('known-attribute-readmitted')
+                else:
+                    ctx.failure('accepted restriction admits an instance that the base type rejects', case, detail)
+                return
+
+    bounds = ['minInclusive', 'maxInclusive', 'minExclusive', 'maxExclusive']
+    lens = ['length', 'minLength', 'maxLength']
+    fpairs = [('integer', fb, vb, fd, vd) for fb, fd in itertools.product(bounds, repeat=2)
+              for vb, vd in itertools.product([-1, 0, 1, 2, 5], repeat=2)]
+    fpairs += [('string', fb, vb, fd, vd) for fb, fd in itertools.product(lens, repeat=2)
+               for vb, vd in itertools.product([0, 1, 2, 3], repeat=2)]
+    ints = [(str(v), {}) for v in range(-4, 9)]
+    strs = [('x' * n, {}) for n in range(0, 6)]
+    for v, cls in classes:
+        for prim, fb, vb, fd, vd in (fpairs if not ctx.quick() else rng.sample(fpairs, 250)):
+            case = {'v': v, 'facets': [prim, fb, vb, fd, vd]}
+            judge(cls(facet_schema(prim, fb, vb, fd, vd), validation='lax'), 'facet-pairs', case,
+                  ints if prim == 'integer' else strs)
+    specs = [(u, f, t, n) for u in (None, 'optional', 'required', 'prohibited') for f in (None, '1', '2')
+             for t in ('integer', 'string') for n in (None, '##any', '##other', '##local', 'urn:o')
+             if not (u is None and (f is not None or t != 'integer')) and not (u == 'prohibited' and f is not None)]
+    apairs = [(b, d) for b in specs for d in specs]
+    cat = [{}, {'a': '1'}, {'a': '2'}, {'a': 'x'}, {'{urn:o}z': '1'}, {'a': '1', '{urn:o}z': '1'}, {'q': '1'},
+           {'{urn:t}w': '1'}]
+    for v, cls in classes:
+        for b, d in rng.sample(apairs, ctx.pick(400, 4000)):
+            case = {'v': v, 'base': list(b), 'derived': list(d)}
+            judge(cls(attr_schema(b, d), validation='lax'), 'attribute-pairs', case, [(None, a) for a in cat])
+
+
+# ---------------------------------------------------------------------------------------------
+# the witnesses of the Lean `_counterexample` theorems, replayed on the real code on every run
+
+E = lambda n, lo=1, hi=1: ('e', n, lo, hi)                     # noqa: E731
+G = lambda k, items, lo=1, hi=1: ('g', k, lo, hi, items)       # noqa: E731
+WITNESSES = [
+    ('restriction_counterexample_empty_group', False, G('sequence', [E('a')]), G('sequence', []), []),
+    ('restriction_counterexample_empty_group', True, G('sequence', [E('a')]), G('sequence', []), []),
+    ('restriction_counterexample_choice11', True, G('choice', [E('c', 2, 3)], 1, None), G('choice', [E('c', 2, 3)], 0, 1), []),
+    ('restriction_counterexample_choice_to_sequence', False, G('choice', [E('a', 1, None), E('b', 1, None)], 0, 1),
+     G('sequence', [E('a', 1, None), E('b', 1, None)], 0, 1), ['a', 'b']),
+    ('wildcard_zero_counterexample', False, G('sequence', [('a', '##any', 1, 1)]), G('sequence', [('a', '##any', 0, 0)]), []),
+    ('elem_wildcard_zero_counterexample', False, G('sequence', [('a', 'urn:t', 1, 1)]), G('sequence', [E('a', 0, 0)]), []),
+]
+
+FOREIGN_MEMBER_ONS = (f'<xs:schema xmlns:xs="{cm.XSD}" targetNamespace="urn:o" xmlns:t="urn:t" elementFormDefault="qualified">'
+                      '<xs:import namespace="urn:t"/><xs:element name="m" type="xs:string" substitutionGroup="t:h"/></xs:schema>')
+FOREIGN_MEMBER_TNS = (f'<xs:schema xmlns:xs="{cm.XSD}" targetNamespace="urn:t" xmlns:t="urn:t" elementFormDefault="qualified">'
+                      '<xs:import namespace="urn:o"/><xs:element name="h" type="xs:string"/>'
+                      '<xs:complexType name="B"><xs:sequence><xs:any namespace="urn:t" processContents="lax"/></xs:sequence></xs:complexType>'
+                      '<xs:complexType name="D"><xs:complexContent><xs:restriction base="t:B"><xs:sequence><xs:element ref="t:h"/>'
+                      '</xs:sequence></xs:restriction></xs:complexContent></xs:complexType>'
+                      '<xs:element name="eb" type="t:B"/><xs:element name="ed" type="t:D"/></xs:schema>')
+
+
+def witnesses(ctx: Ctx) -> None:
+    import xmlschema
+    for name, v11, b, d, w in WITNESSES:
+        schema = c14.build([b], [[d]], v11)
+        ok = not schema.all_errors
+        vd, vb = confirm(schema, 0, 0, w) if ok else (None, None)
+        ctx.case({'witness': name, 'v11': v11}, True, tag='lean-counterexample-witness')
+        if ok and vd and not vb:
+            ctx.known_hit(KNOWN_ID)
+            ctx.count('witness-reconfirmed:' + name)
+        else:
+            ctx.notes.append(f'witness of {name} (v11={v11}) no longer fails on the implementation '
+                             f'(accepted={ok}, valid_d={vd}, valid_b={vb})')
+    for v11, cls in ((False, xmlschema.XMLSchema10), (True, xmlschema.XMLSchema11)):
+        schema = cls([FOREIGN_MEMBER_TNS, FOREIGN_MEMBER_ONS], validation='lax')
+        e1 = c14.ET.Element('{urn:t}ed')
+        e2 = c14.ET.Element('{urn:t}eb')
+        for e in (e1, e2):
+            c14.ET.SubElement(e, '{urn:o}m').text = 'x'
+        ctx.case({'witness': 'elem_wildcard_counterexample', 'v11': v11}, True, tag='lean-counterexample-witness')
+        if not schema.all_errors and schema.elements['ed'].is_valid(e1) and not schema.elements['eb'].is_valid(e2):
+            ctx.known_hit(KNOWN_ID)
+            ctx.count('witness-reconfirmed:elem_wildcard_counterexample')
+        else:
+            ctx.notes.append(f'witness of elem_wildcard_counterexample (v11={v11}) no longer fails on the implementation')
+
+
 def run(ctx: Ctx, driver_ok: bool) -> None:
     drv = Driver('drv_c14') if driver_ok else None
     occurs_table(ctx, drv)
+    witnesses(ctx)
     strict_sample(ctx)
+    second_part(ctx)
     if drv is None:
         ctx.notes.append('Lean driver unavailable: property evaluated on the enumerated family with the python '
                          'reference matcher; known pairs = the list in notes/findings/C14.json')
@@ -388,6 +535,24 @@ def replay(ctx: Ctx, obj: dict) -> int:
         r = ParticleMixin(lo, hi).has_occurs_restriction(ParticleMixin(olo, ohi))
         print('implementation: has_occurs_restriction =', r)
         return 1 if r else 0
+    if 'facets' in case or ('base' in case and 'b_ast' not in case):
+        import xmlschema
+        cls = xmlschema.XMLSchema11 if case['v'] == '1.1' else xmlschema.XMLSchema10
+        text = facet_schema(*case['facets']) if 'facets' in case else attr_schema(tuple(case['base']), tuple(case['derived']))
+        schema = cls(text, validation='lax')
+        det = obj.get('detail') or {}
+        e1 = c14.ET.Element('{urn:t}ed', det.get('attributes') or {})
+        e2 = c14.ET.Element('{urn:t}eb', det.get('attributes') or {})
+        e1.text = e2.text = det.get('text')
+        vd, vb = schema.elements['ed'].is_valid(e1), schema.elements['eb'].is_valid(e2)
+        print('implementation: schema errors =', [str(e.message) for e in schema.all_errors],
+              ' valid for derived =', vd, ' valid for base =', vb)
+        bad = not schema.all_errors and vd and not vb
+        if bad and 'facets' not in case and attr_known_match(case, det):
+            print('judgement: known finding C14-F1 (prohibited base attribute re-admitted)')
+            return 0
+        print('judgement:', 'VIOLATION' if bad else 'no violation on this input')
+        return 1 if bad else 0
     if 'b_ast' not in case:
         return 0
     b, d = tup(case['b_ast']), tup(case['d_ast'])
